@@ -29,7 +29,7 @@ func TestVerifFilter(t *testing.T) {
 	t0 := time.Now()
 	prop := os.Getenv("VERIF_PROP")
 	res := vNew(prop, "overlay test in package main of apps/rtcmfilter: the real HandleMessages on mixed streams (valid frames of decodable and other types, corrupted frames, "+
-		"junk) through chunked readers (a third of them returning their last bytes together with the end-of-file error), for the four display/record switch combinations, with writer latencies 0/1/5 ms (C11: 1/5/20 ms, and a writer that stalls for 8 s - thorough 35 s - on the write that completes the output, and in another case on the very first write); at the instant HandleMessages returns: output bytes == concatenation of the valid "+
+		"junk) through chunked readers (a third of them returning their last bytes together with the end-of-file error), for the four display/record switch combinations, with and without a tolerance for end of file, with writer latencies 0/1/5 ms (C11: 1/5/20 ms, and a writer that stalls for 8 s - thorough 35 s - on the write that completes the output, and in another case on the very first write); at the instant HandleMessages returns: output bytes == concatenation of the valid "+
 		"frames == typed messages of sequential framing, record file == output, readable log has one entry per message; non-trivial = at least one valid frame; distinct = distinct stream")
 	r := rand.New(rand.NewSource(res.Seed))
 	start := time.UnixMilli(1683979200000).UTC()
@@ -59,6 +59,12 @@ func TestVerifFilter(t *testing.T) {
 		display, record := i%2 == 1, i%4 >= 2
 		dir, _ := os.MkdirTemp("", "verif-filter")
 		cfg := jsonconfig.Config{DisplayMessages: display, RecordMessages: record, MessageLogDirectory: dir}
+		// every third case (the stalling ones included) runs with a tolerance for end of file, as a live
+		// feed is configured: the reader then rides out 20 ms of silence before it gives up
+		eofTolerance := i%3 == 1 || stall > 0
+		if eofTolerance {
+			cfg.TimeoutOnEOFMilliSeconds, cfg.WaitTimeOnEOFMilliseconds = 20, 5
+		}
 		delay := []time.Duration{0, 0, time.Millisecond, 5 * time.Millisecond}[r.Intn(4)]
 		if prop == "C11" {
 			delay = []time.Duration{time.Millisecond, 5 * time.Millisecond, 20 * time.Millisecond}[r.Intn(3)]
@@ -79,6 +85,11 @@ func TestVerifFilter(t *testing.T) {
 			stall, _ = time.ParseDuration(rp["stall"])
 			stallFirst = rp["stallfirst"] == "true"
 			cfg.DisplayMessages, cfg.RecordMessages = display, record
+			eofTolerance = rp["tolerance"] == "true"
+			cfg.TimeoutOnEOFMilliSeconds, cfg.WaitTimeOnEOFMilliseconds = 0, 0
+			if eofTolerance {
+				cfg.TimeoutOnEOFMilliSeconds, cfg.WaitTimeOnEOFMilliseconds = 20, 5
+			}
 		}
 		var inputDone int32
 		stallAt := 0
@@ -98,7 +109,7 @@ func TestVerifFilter(t *testing.T) {
 		if stray {
 			class += ",stray-start-bytes"
 		}
-		op := fmt.Sprintf("filter display=%v record=%v delay=%v stall=%v stallfirst=%v chunks=%s stream=%s", display, record, delay, stall, stallFirst, vIntsText(chunks), vhx(bs))
+		op := fmt.Sprintf("filter display=%v record=%v delay=%v stall=%v stallfirst=%v tolerance=%v chunks=%s stream=%s", display, record, delay, stall, stallFirst, eofTolerance, vIntsText(chunks), vhx(bs))
 		failure := ""
 		vMark(op)
 		func() {
